@@ -192,10 +192,16 @@ pub fn run(ctx: &mut Ctx) {
         let delta = if ctx.rng.chance(1, 4) { 0 } else { size * ctx.rng.below(65536 / size) };
         let pos = *ctx.rng.pick(&[0usize, 0, 1, size, 3 * size + 2]);
         let count = pos + size + ctx.rng.below(3);
-        let coeffs: Vec<u16> = (0..size).map(|_| ctx.rng.below(65536) as u16).collect();
+        let mut coeffs: Vec<u16> = (0..size).map(|_| ctx.rng.below(65536) as u16).collect();
         let eng = ctx.rng.below(prims.len());
         let mut data = vec![[0u8; 64]; count];
         for b in data.iter_mut() { b.copy_from_slice(&ctx.rng.bytes(64)); }
+        // one time in three a sparse polynomial: whole coefficient SHARDS are zero (all lanes) - the upper coefficients,
+        // or a random subset - next to non-zero ones: what zero padding and constant data look like to the transform
+        let sparse = ctx.rng.below(3);
+        let zero_at: Vec<bool> = (0..size).map(|t| match sparse { 0 => t >= (size / 2).max(1) && size > 1, 1 => ctx.rng.chance(1, 2), _ => false }).collect();
+        for (t, z) in zero_at.iter().enumerate() { if *z { coeffs[t] = 0; data[pos + t] = [0u8; 64]; } }
+        ctx.count("fft_polynomial", match sparse { 0 => "upper coefficient shards zero", 1 => "random coefficient shards zero", _ => "dense" });
         for (t, c) in coeffs.iter().enumerate() { set_sym(&mut data[pos + t..pos + t + 1], 0, *c); }
         let orig = data.clone();
         prims[eng].1.fft(&mut data, count, 1, pos, size, size, delta);
